@@ -11,17 +11,23 @@ open Rscp Rscp.Model
 theorem interleaving_invariant {σ α ω : Type} (a : Agent σ α ω) (g : Nat → σ) (sched : List (Nat × α)) (i : Nat) :
     ((a.global g sched).filter (fun p => p.1 == i)).map (·.2) =
       a.solo (g i) ((sched.filter (fun p => p.1 == i)).map (·.2)) := by
-  sorry
+  exact Agent.global_filter_eq_solo a sched i g
 
 /-- steps of different agents commute -/
 theorem steps_commute {σ α ω : Type} (a : Agent σ α ω) (g : Nat → σ) (i j : Nat) (x y : α) (h : i ≠ j)
     (rest : List (Nat × α)) (k : Nat) :
     ((a.global g ((i, x) :: (j, y) :: rest)).filter (fun p => p.1 == k)).map (·.2) =
     ((a.global g ((j, y) :: (i, x) :: rest)).filter (fun p => p.1 == k)).map (·.2) := by
-  sorry
+  rw [Agent.global_filter_eq_solo, Agent.global_filter_eq_solo]
+  congr 1
+  by_cases hi : i = k <;> by_cases hj : j = k <;> simp_all
 
 /-- no function of package rscp writes a package-level variable (the regenerated list of write sites is empty) -/
 theorem no_package_writes : Gen.Shape.rscpGlobalWrites = [] := by
-  sorry
+  rfl
 
 end Rscp.Props.C17
+
+#print axioms Rscp.Props.C17.interleaving_invariant
+#print axioms Rscp.Props.C17.steps_commute
+#print axioms Rscp.Props.C17.no_package_writes
